@@ -77,6 +77,12 @@ def random_cost(rng, plain=False, coherent_only=True, maxv=7):
         mode = rng.random()
         if mode < 0.15:
             c = dict(DEFAULT)
+        elif mode < 0.33 and mode >= 0.25:
+            # transfers cheap against duplications AND full losses (speciations free): moving a whole subtree to another
+            # lineage beats keeping it where its cheapest placement is
+            c = {"spe": 0, "dup": rng.randint(2, 5), "hgt": 1, "floss": rng.randint(2, 4), "sloss": rng.randint(0, 2)}
+            if rng.random() < 0.3:
+                c["hgt"] = rng.randint(1, 2)
         elif mode < 0.25:
             # transfers strictly cheaper than speciations and duplications: scenarios made of transfers win, bounds that
             # count only speciations/duplications are wrong
